@@ -5,8 +5,11 @@
 import YalafiVerif.Model.Proto
 import YalafiVerif.Model.Tex2txt
 import YalafiVerif.Model.Shell
+import YalafiVerif.Model.Html
+import YalafiVerif.Model.ProtoChecks
 import YalafiVerif.Generated.Tables
 open Yalafi Yalafi.Proto
+open Yalafi.Html (generateHtml normContext firstRows)
 
 def PT : PTables := Yalafi.Generated.theTables
 def T : Tables := PT.toTables
@@ -145,6 +148,31 @@ def opProtect : R (List String) := do
   let s ← str
   pure ["ok", encStr (protectHtml s)]
 
+/-- HTML tex charmap matches context: the structure of `generate_html` (Model/Html.lean).
+    Answer: ok | nH (idx unsure beg fin beglin endlin lin)* | nRegions (beglin endlin nPieces
+    (kind idx text)* lineNumbers nOverlaps (idx lin text)* nRows rowText*)* | first? text numbers nRows rowText* -/
+def opHtml : R (List String) := do
+  let tex ← str
+  let cm ← intList
+  let ms ← list (do let o ← int; let l ← int; pure (o, l))
+  let ctx ← int
+  pure (encSOut (generateHtml T tex cm ms (normContext ctx)) (fun r =>
+    [toString r.hdata.length] ++
+    (r.hdata.map (fun h => [toString h.idx, encBool h.unsure, toString h.beg, toString h.fin,
+                            toString h.beglin, toString h.endlin, toString h.lin])).flatten ++
+    [toString r.regions.length] ++
+    (r.regions.map (fun g =>
+      [toString g.beglin, toString g.endlin, toString g.pieces.length] ++
+      (g.pieces.map (fun p => match p with
+        | .plain s => ["p", "0", encStr s]
+        | .hi i s => ["h", toString i, encStr s])).flatten ++
+      [encIntList g.lineNumbers, toString g.overlaps.length] ++
+      (g.overlaps.map (fun o => [toString o.idx, toString o.lin, encStr o.text])).flatten ++
+      (toString g.rows.length :: g.rows.map (fun row => encStr (row.map (·.2)))))).flatten ++
+    (match r.first with
+     | some f => ["1", encStr f.1, encIntList f.2] ++ (toString (firstRows f.1).length :: (firstRows f.1).map encStr)
+     | none => ["0"])))
+
 def opSingle : R (List String) := do
   let plain ← str
   let hits ← list (do let a ← nat; let b ← nat; pure (a, b))
@@ -181,6 +209,9 @@ def dispatch (op : String) : R (List String) :=
   | "ASMSORT" => opAsmSort
   | "LINECOL" => opLineCol
   | "PROTECT" => opProtect
+  | "HTML" => opHtml
+  | "ACCEPTHITS" => opAcceptHits T
+  | "EQPUNCT" => opEqPunct T
   | "SINGLE" => opSingle
   | "CONTEXT" => opContext
   | "INCLUDE" => opInclude
